@@ -91,12 +91,12 @@ Lemma alloc_rest : forall s0 par,
   wparent s0 = wparent s -> wname s0 = wname s -> wsource s0 = wsource s ->
   pkind s0 = pkind s -> pparent s0 = pparent s -> pwire s0 = pwire s ->
   let s' := alloc_obj s0 par n prim in
-  unique_wires s' /\ (forall w, w < nwire s' -> wparent s' w < nobj s') /\ ports_ok s' /\ single_driver s'.
+  unique_wires s' /\ (forall w, w < nwire s' -> wparent s' w < nobj s') /\ ports_ok s'.
 Proof.
   intros s0 par E1 E2 E3 E4 E5 E6 E7 E8 E9 E10 E11 E12 E13 E14 s'.
   destruct Hinv as [_ [W1 W2] WP [P1 [P2 [P3 P4]]] SD].
-  subst s'. unfold unique_wires, ports_ok, single_driver, driver. cbn.
-  rewrite E1, E2, E3, E4, E5, E6, E7, E8, E9, E10, E11, E12, E13, E14.
+  subst s'. unfold unique_wires, ports_ok. cbn.
+  rewrite ?E1, ?E2, ?E3, ?E4, ?E5, ?E6, ?E7, ?E8, ?E9, ?E10, ?E11, ?E12, ?E13, ?E14.
   assert (PP : forall q, q < nport s -> pparent s q <> nobj s) by (intros q Hq; destruct (P1 q Hq); lia).
   repeat split.
   - intros p Hp. unfold upd. eqb_cases; cbn; [constructor | apply W1; lia].
@@ -118,12 +118,20 @@ Proof.
   - revert H0. unfold upd. eqb_cases; cbn; [tauto|]. intros Hin. apply P4 in Hin; [tauto|lia].
   - revert H0. unfold upd. eqb_cases; cbn; [tauto|]. intros Hin. apply P4 in Hin; [tauto|lia].
   - intros [Hq [Hk Hpp]]. unfold upd. eqb_cases; [exfalso; eapply PP; eauto|]. apply P4; [lia|auto].
-  - intros [Hq [Hw [Hpr Hd]]]. apply SD; auto. unfold driver. repeat split; auto.
-    revert Hpr. unfold upd. eqb_cases; auto. exfalso; eapply PP; eauto.
-  - apply SD in H0; auto. destruct H0; auto.
-  - apply SD in H0; auto. destruct H0 as [? [? ?]]; auto.
-  - apply SD in H0; auto. destruct H0 as [Hq [? [? ?]]]. unfold upd. eqb_cases; auto. exfalso; eapply PP; eauto.
-  - apply SD in H0; auto. destruct H0 as [Hq [? [? ?]]]. auto.
+Qed.
+
+Lemma alloc_sd : forall s0 par,
+  nobj s0 = nobj s -> nwire s0 = nwire s -> nport s0 = nport s -> oprim s0 = oprim s -> wsource s0 = wsource s -> wbidir s0 = wbidir s ->
+  pkind s0 = pkind s -> pparent s0 = pparent s -> pwire s0 = pwire s ->
+  single_driver (alloc_obj s0 par n prim).
+Proof.
+  intros s0 par E1 E2 E3 E8 E11 E15 E12 E13 E14.
+  destruct Hinv as [_ _ _ [P1 _] SD].
+  unfold single_driver, driver. cbn. rewrite E1, E2, E3, E8, E11, E15, E12, E13, E14.
+  assert (PP : forall q, q < nport s -> pparent s q <> nobj s) by (intros q Hq; destruct (P1 q Hq); lia).
+  intros w q Hw Hb. rewrite <- (SD w q Hw Hb). unfold driver. split.
+  - intros [Hq [Hpw [Hpr Hd]]]. rewrite upd_other in Hpr by (apply PP; auto). repeat split; auto.
+  - intros [Hq [Hpw [Hpr Hd]]]. rewrite upd_other by (apply PP; auto). repeat split; auto.
 Qed.
 End NewLogic.
 
@@ -137,18 +145,18 @@ Proof.
     destruct (tmem (ochildren s p) n) eqn:Hm; [inversion H; subst; auto|].
     inversion H; subst; clear H.
     destruct (alloc_rest s n prim Hinv (set_ochildren s (upd (ochildren s) p (tput (ochildren s p) n (nobj s)))) (Some p))
-      as [A [B [C D]]]; try reflexivity.
-    constructor; auto. apply alloc_children_some; auto.
+      as [A [B C]]; try reflexivity.
+    constructor; auto; [apply alloc_children_some; auto | apply (alloc_sd s n prim Hinv); reflexivity].
   - inversion H; subst; clear H.
-    destruct (alloc_rest s n prim Hinv s None) as [A [B [C D]]]; try reflexivity.
-    constructor; auto. apply alloc_children_none; auto.
+    destruct (alloc_rest s n prim Hinv s None) as [A [B C]]; try reflexivity.
+    constructor; auto; [apply alloc_children_none; auto | apply (alloc_sd s n prim Hinv); reflexivity].
 Qed.
 
 (* ---------------------------------------------------------------- Wire.__init__ *)
-Lemma new_wire_inv : forall s p n width s' out,
-  Inv s -> new_wire s p n width = (s', out) -> Inv s'.
+Lemma new_wire_inv : forall s p n width bd s' out,
+  Inv s -> new_wire s p n width bd = (s', out) -> Inv s'.
 Proof.
-  intros s p n width s' out Hinv H. unfold new_wire in H.
+  intros s p n width bd s' out Hinv H. unfold new_wire in H.
   destruct (Nat.ltb_spec p (nobj s)) as [Hp|Hp]; cbn [negb] in H; [|inversion H; subst; auto].
   destruct (tmem (owires s p) n) eqn:Hm; [inversion H; subst; auto|].
   inversion H; subst; clear H.
@@ -169,7 +177,7 @@ Proof.
   - unfold single_driver, driver; cbn. intros x q Hx.
     assert (PW : forall q, q < nport s -> pwire s q <> nwire s) by (intros q0 Hq0; destruct (P1 q0 Hq0); lia).
     unfold upd. destruct (Nat.eqb_spec x (nwire s)) as [E|E].
-    + subst x. split; [|discriminate]. intros [Hq [Hw _]]. exfalso; eapply PW; eauto.
+    + subst x. intros _. split; [|discriminate]. intros [Hq [Hw _]]. exfalso; eapply PW; eauto.
     + apply SD. lia.
 Qed.
 
@@ -209,7 +217,7 @@ Proof.
   intros s k o n w s' out Hinv H. unfold add_port in H.
   destruct (Nat.ltb_spec o (nobj s)) as [Ho|Ho]; cbn [negb andb] in H; [|inversion H; subst; auto].
   destruct (Nat.ltb_spec w (nwire s)) as [Hw|Hw]; cbn [negb andb] in H; [|inversion H; subst; auto].
-  destruct (oprim s o && drives k && is_some (wsource s w)) eqn:Hc; [inversion H; subst; auto|].
+  destruct (oprim s o && drives k && negb (wbidir s w) && is_some (wsource s w)) eqn:Hc; [inversion H; subst; auto|].
   inversion H; subst; clear H.
   destruct Hinv as [HC HW WP [P1 [P2 [P3 P4]]] SD].
   constructor.
@@ -221,20 +229,22 @@ Proof.
     + destruct k; first [apply (port_list_app s oin PIn); auto | apply (port_list_same s oin PIn); auto; discriminate].
     + destruct k; first [apply (port_list_app s oout POut); auto | apply (port_list_same s oout POut); auto; discriminate].
     + destruct k; first [apply (port_list_app s oinout PInOut); auto | apply (port_list_same s oinout PInOut); auto; discriminate].
-  - unfold single_driver, driver; cbn. intros x q Hx.
+  - unfold single_driver, driver; cbn. intros x q Hx Hbx.
     unfold single_driver in SD.
-    assert (NEW : forall x', x' < nwire s -> wsource s x' <> Some (nport s)).
-    { intros x' Hx' E. apply SD in E; auto. destruct E; lia. }
+    assert (NEW : forall x', x' < nwire s -> wbidir s x' = false -> wsource s x' <> Some (nport s)).
+    { intros x' Hx' Hb' E. apply SD in E; auto. destruct E; lia. }
     unfold upd.
     destruct (Nat.eqb_spec q (nport s)) as [Eq|Eq].
     + subst q. destruct (Nat.eqb_spec x w) as [Ex|Ex].
-      * subst x. destruct (oprim s o && drives k) eqn:Hd.
+      * subst x. rewrite Hbx in *. cbn [negb] in *. rewrite andb_true_r in *.
+        destruct (oprim s o && drives k) eqn:Hd.
         -- apply andb_true_iff in Hd. intuition.
         -- split; [|intros E; exfalso; eapply NEW; eauto].
            intros [_ [_ [A B]]]. rewrite A, B in Hd. discriminate.
       * split; [intros [_ [A _]]; congruence | intros E; exfalso; eapply NEW; eauto].
     + destruct (Nat.eqb_spec x w) as [Ex|Ex].
-      * subst x. destruct (oprim s o && drives k) eqn:Hd.
+      * subst x. rewrite Hbx in *. cbn [negb] in *. rewrite andb_true_r in *.
+        destruct (oprim s o && drives k) eqn:Hd.
         -- cbn in Hc. destruct (wsource s w) eqn:Hs; [discriminate|].
            split; [|intros E; inversion E; congruence].
            intros [Hq [A [B C]]]. exfalso.
